@@ -309,14 +309,22 @@ type distCfg struct {
 	Async     bool
 	Gated     bool
 	SlowSub   bool // Subscribe takes virtual time
+	FailDeq   []int // transient refusals of the k-th dequeue call
+	Bad       int   // malformed entries stored before the first consumer binds
 }
 
 func (c distCfg) String() string {
-	return fmt.Sprintf("dist prio=%v consumers=%v bindAfter=%v n=%d async=%v gated=%v slowSub=%v", c.Prio, c.Consumers, c.BindAfter, c.N, c.Async, c.Gated, c.SlowSub)
+	return fmt.Sprintf("dist prio=%v consumers=%v bindAfter=%v n=%d async=%v gated=%v slowSub=%v failDeq=%v bad=%d", c.Prio, c.Consumers, c.BindAfter, c.N, c.Async, c.Gated, c.SlowSub, c.FailDeq, c.Bad)
 }
 
 func drawDist(r *Rng) distCfg {
 	c := distCfg{Prio: r.Bool(), N: 2 + r.Intn(14), Async: r.Chance(50), Gated: r.Chance(30), SlowSub: r.Chance(35)}
+	if r.Chance(30) {
+		c.FailDeq = append(c.FailDeq, 1+r.Intn(c.N))
+	}
+	if r.Chance(25) {
+		c.Bad = 1 + r.Intn(2)
+	}
 	nc := 1 + r.Intn(4)
 	for i := 0; i < nc; i++ {
 		c.Consumers = append(c.Consumers, Pick(r, 1, 1, 2, 3, 8))
@@ -345,6 +353,12 @@ func epDist(c *RunCtx, cfg distCfg) *Result {
 		led.Async = cfg.Async
 		if cfg.SlowSub {
 			led.SubDelay = 20 * time.Microsecond
+		}
+		for _, x := range cfg.FailDeq {
+			led.FailDeq[x] = true
+		}
+		for i := 0; i < cfg.Bad; i++ {
+			led.Preload([]byte("{malformed"), 0)
 		}
 		var gate chan struct{}
 		if cfg.Gated {
@@ -419,7 +433,7 @@ func epDist(c *RunCtx, cfg distCfg) *Result {
 			for _, cc := range cfg.Consumers {
 				capTotal += cc
 			}
-			if want := min(cfg.N, capTotal); inflight != want {
+			if want := min(cfg.N, capTotal); inflight != want && len(cfg.FailDeq) == 0 {
 				e.Fail("C13", "not-saturated", "", fmt.Sprintf("%s: %d items executing at the gated quiescent point, expected min(items, total capacity)=%d", cfg, inflight, want))
 				e.Fail("C03", "no-progress-at-quiescence", "distributed", fmt.Sprintf("%s: %d executing, want %d", cfg, inflight, want))
 			}
@@ -432,8 +446,8 @@ func epDist(c *RunCtx, cfg distCfg) *Result {
 		time.Sleep(2*total + 100*time.Microsecond)
 		synctest.Wait()
 		p, u, a := led.State()
-		if p != 0 || u != 0 || a != cfg.N {
-			e.Fail("C13", "not-drained", "", fmt.Sprintf("%s: shared adapter pending=%d unacked=%d acked=%d at quiescence, want 0/0/%d", cfg, p, u, a, cfg.N))
+		if p != 0 || u != cfg.Bad || a != cfg.N {
+			e.Fail("C13", "not-drained", "", fmt.Sprintf("%s: shared adapter pending=%d unacked=%d acked=%d at quiescence, want 0/%d/%d", cfg, p, u, a, cfg.Bad, cfg.N))
 		}
 		used := map[int32]bool{}
 		for i, r := range k.Recs {
@@ -467,6 +481,21 @@ func epDist(c *RunCtx, cfg distCfg) *Result {
 var ledgerFuncs = []string{"processNextJob", "goEventLoop", "handleQueueSubscription", "notifyToPullNextJobs", "job.Close", "job.ack", "setAckId", "initPoolNode", "WithDistributed", "WithPersistent", "start", "freePoolNode", "sendToNextChannel", "parseToJob", "Add"}
 
 func runC11(c *RunCtx) {
+	// entries that are dropped without being processed (undecodable, foreign) must not be acknowledged
+	for v := 0; v < c.Q(120, 1200); v++ {
+		c.Program(fmt.Sprintf("bad/%d", v), func(p *Prog) {
+			r := p.Rng
+			cfg := badCfg{Prio: r.Bool(), Dist: r.Bool(), Paced: r.Bool()}
+			for i := 0; i < 1+r.Intn(7); i++ {
+				if r.Chance(40) {
+					cfg.Slots = append(cfg.Slots, 1+r.Intn(len(badKinds)-1))
+				} else {
+					cfg.Slots = append(cfg.Slots, 0)
+				}
+			}
+			p.Explore(func(pl Plan) *Result { return epBadEntries(c, cfg) }, ExploreOpts{Base: 1})
+		})
+	}
 	for v := 0; v < c.Q(64, 400); v++ {
 		c.Program(fmt.Sprintf("ack/%d", v), func(p *Prog) {
 			cfg := drawAck(p.Rng)
